@@ -280,6 +280,6 @@ def _worker(ctx, job):
 
 def run(ctx):
     quick = ctx.tier == "quick"
-    n = 45 if quick else 2500
+    n = 110 if quick else 2500
     jobs = [(n, (v,)) for v in range(4, 16)] + [(n, tuple(range(4, 17)))] * 4
     ctx.parallel(_worker, jobs)
